@@ -17,7 +17,7 @@ def Ev.outId : Ev → Option Nat
 
 theorem filterMap_outId_none {e : Ev} (tr : List Ev) (h : e.outId = none) :
     (e :: tr).filterMap Ev.outId = tr.filterMap Ev.outId := by
-  simp [List.filterMap_cons, h]
+  simp [h]
 
 /-- `l` = ids currently owned by somebody inside the operation (container slots below `len`,
 iterator ranges, locals), `B` = buffers owned. Each owned id is live (not out), known (`< next`)
